@@ -6,8 +6,11 @@
  *     I <table> <flags0-word> <int0>      (initial content of the boolean word: all 64 bits matter)
  *     O <table> <short-code> <kind> <pp:0|1> <deprecated:0|1> <bit> <long-name-codes>
  * script:  S <sid>
- *          parse <table> <settings|-1> <argv-token|-> <leak-ok:T|F> = ? ?      first call: builds everything
- *          parse <table> -1 - F = ? ?                                         second call on the same argv
+ *          parse <table> <settings|-1> <argv-token|-> <leak-ok:T|F> <prelude> = ? ?   first call: builds everything
+ *          parse <table> -1 - F <prelude> = ? ?                                      second call on the same argv
+ * prelude (stale process state set up right before the call; the result must not depend on it):
+ *   0 none, 1 errno=ERANGE, 2 errno=EINTR, 3 errno=EAGAIN, 4 an earlier parse of another command line with another
+ *   table that ended in bad options (and the program reset the counter afterwards)
  *          E
  * settings: bit0 PREPARSE, bit1 REMOVE_ARGS (the library's own values).
  * State token: {argv=[[..]..],bad=N,fl=N,hang=T|F,help=N,sf=N,term=T|F,tv=[{has=,n=,s=,ws=}...]}
@@ -106,11 +109,12 @@ static void setup(int tb, const char *argvtok) {
     p = argvtok + 1; n = 1;
     while (*p && n < ac) {
         if (*p == '[') {
-            const char *e = strchr(p, ']'); size_t len; char tmp[512];
+            const char *e = strchr(p, ']'); size_t len; char *tmp;
             size_t k = (size_t) (e - p + 1);
-            if (k >= sizeof(tmp)) k = sizeof(tmp) - 1;
+            tmp = (char *) malloc(k + 1);
             memcpy(tmp, p, k); tmp[k] = 0;
             av[n++] = (char *) vh_bytes(tmp, &len, 1);
+            free(tmp);
             p = e + 1;
         } else p++;
     }
@@ -123,6 +127,19 @@ static void setup(int tb, const char *argvtok) {
     SPIFOPT_BADOPTS_SET(0);
     SPIFOPT_HELPHANDLER_SET(help_handler);
     spifopt_settings.flags = 0;
+}
+
+/* prelude 4: what an earlier, unrelated use of the parser in the same process leaves behind */
+static void earlier_refused_parse(void) {
+    static long qv; static char a0[] = "p", a1[] = "--zz", a2[] = "-q", a3[] = "99999999999999999999999";
+    char *pav[5]; spifopt_t pt[1];
+    spif_uint8_t fl = spifopt_settings.flags; spif_uint16_t bad = SPIFOPT_BADOPTS_GET();
+    pt[0].short_opt = 'q'; pt[0].long_opt = SPIF_CHARPTR("qq"); pt[0].desc = SPIF_CHARPTR("d");
+    pt[0].flags = SPIFOPT_FLAG_INTEGER; pt[0].value = &qv; pt[0].mask = 0;
+    pav[0] = a0; pav[1] = a1; pav[2] = a2; pav[3] = a3; pav[4] = NULL;
+    SPIFOPT_OPTLIST_SET(pt); SPIFOPT_NUMOPTS_SET(1); spifopt_settings.flags = 0;
+    spifopt_parse(4, pav);
+    SPIFOPT_OPTLIST_SET(table); SPIFOPT_NUMOPTS_SET(nopt); spifopt_settings.flags = fl; SPIFOPT_BADOPTS_SET(bad);
 }
 
 static void vh_begin(void) { cur_tb = -1; vh_check_heap = 1; }
@@ -153,10 +170,11 @@ static void vh_end(void) {
 static void put_text(vh_sb *b, const char *s) { sb_bytes(b, (const unsigned char *) s, strlen(s)); }
 
 static const char *vh_step(const vh_step_t *st, vh_sb *ret, vh_sb *state) {
-    int tb, j, k, hang = 0, term = 0; long settings;
+    int tb, j, k, hang = 0, term = 0; long settings, prelude;
     struct itimerval tv, off;
 
-    if (strcmp(st->op, "parse") || st->nargs < 4) return "unknown_op";
+    if (strcmp(st->op, "parse") || st->nargs < 5) return "unknown_op";
+    prelude = vh_int(st->args[4]);
     tb = (int) vh_int(st->args[0]) - 1; settings = vh_int(st->args[1]);
     if (tb < 0 || tb >= MAXT || !ndefs[tb]) return "no_such_table";
     if (cur_tb < 0) {
@@ -170,6 +188,8 @@ static const char *vh_step(const vh_step_t *st, vh_sb *ret, vh_sb *state) {
     if (sigsetjmp(jb, 1) == 0) {
         armed = 1;
         setitimer(ITIMER_VIRTUAL, &tv, NULL);
+        if (prelude == 4) earlier_refused_parse();
+        errno = prelude == 1 ? ERANGE : prelude == 2 ? EINTR : prelude == 3 ? EAGAIN : errno;
         spifopt_parse(ac, av);
         armed = 0;
         setitimer(ITIMER_VIRTUAL, &off, NULL);
@@ -215,7 +235,7 @@ static const char *vh_step(const vh_step_t *st, vh_sb *ret, vh_sb *state) {
                 else {
                     char **l = (char **) v;
                     sb_puts(state, "{has=T,n=0,s=[],ws=[");
-                    for (k = 0; l[k] && k < 64; k++) { if (k) sb_putc(state, ','); put_text(state, l[k]); }
+                    for (k = 0; l[k] && k < 100000; k++) { if (k) sb_putc(state, ','); put_text(state, l[k]); }
                     sb_puts(state, "]}");
                 }
                 break;
